@@ -672,7 +672,7 @@ def classify_refit(job, refit, fresh):
         extra['set_derived_gnn'] = True       # (loss / optimizer / layers in any combination)
     elif sets:
         extra['set_derived'] = ','.join(sets)
-    if d == ['<outcome>'] and refit['outcome'].startswith('err') and fresh['outcome'] == 'ok':
+    if d == ['<outcome>'] and refit['outcome'].startswith('err'):
         extra['refit_error'] = refit['outcome'][4:].split(':')[0]
     if job['cls'] == 'GNNClassifier':
         extra['reinit'] = bool(job['target'].get('kw', {}).get('reinit', False))
